@@ -24,3 +24,5 @@ pub mod utils;
 pub mod streamertail_optimizer;
 pub mod rsp;
 pub mod query_engine;
+#[cfg(kolibrie_verif)]
+pub mod verif_hooks;
